@@ -16,9 +16,15 @@ CHECKS = {
  "C04": dict(cat="model_checking", tech="small-scope exhaustive enumeration of table shapes x probe rowids",
    text="Every table b-tree shape of C01 x every probe rowid (present, both neighbours, middle and last value of every gap = both separator styles, int64 min/max, 0, +-1) through SelectRowid, PKSelect on the alias PK and Table.Rowid, judged by the builder's logical rows.",
    note="Trusted: dbgen + conformance.", ref="5/C04"),
+ "C05": dict(cat="exploration", tech="environment/input-deviation enumeration (1 corrupted field, every byte x boundary values, truncations, hostile records and SQL, journal bytes) with every public operation run in a watched worker subprocess",
+   text="4 small base images (two-level table/index trees, multi-page overflow chains, WITHOUT ROWID, multi-page sqlite_master) x every structural field x a boundary alphabet (own page, every page, page count+1, 0/1/+-1/max, 9-byte and negative varints, every serial type), every byte x 8 values (x256 thorough), every truncation length multiple of 64 and around page boundaries, ~100 hostile record payloads as table and index cells, ~60 hostile CREATE texts in sqlite_master, pairs of related fields within a page (thorough), journal header fields x lengths on real files; every mutant runs open, schema calls, Info, all scans/searches/lookups, the six high level selects with several keys and the driver. Oracle: no panic (also in the driver goroutine), live heap < 3 GB, < 20 s CPU per operation, worker survives.",
+   note="Exhaustive for one deviation within the alphabets; not all byte strings. CPU-time (not wall) watchdog with >10^6x slack; no read-count bound.", ref="5/C05"),
  "C11": dict(cat="model_checking", tech="exhaustive enumeration of all pairs/triples of a value grid x collations x directions against real SQLite's ranking",
    text="All ordered pairs of a 109-value grid (every storage class, int64/float64 boundaries, case/whitespace/NUL/non-ASCII text, blobs) x 3 collations x ASC/DESC through db.Search both ways and db.Equals, judged by SQLite's dense_rank() and index order; all triples for transitivity; multi-column keys of every prefix length x 8 DESC masks.",
    note="Trusted: SQLite 3.40.1 ranking. NaN and invalid UTF-8 are outside the grid.", ref="5/C11"),
+ "C12": dict(cat="fault_enumeration", tech="fault enumeration: I/O error or short read at the k-th page read for every k (and a second fault wherever the operation kept reading), lock failure; cold and warm handles",
+   text="Every public read operation on T1+T2+T3 images (multi-level trees, overflow chains, nested index->table and index->WITHOUT ROWID lookups) on a cold and a warm handle x a fault at page read k for every k=1..reads as error and as short read, a second fault at later reads, RLock failure. Oracle: non-nil error, delivered rows are a prefix of the fault-free rows, the warm handle returns the fault-free result afterwards (no garbage cached).",
+   note="Faults are the detectable ones the property names (error, short read); silent bit flips are C05's domain. Database.Info() is not judged (it prints errors into its string).", ref="5/C12"),
  "C13": dict(cat="model_checking", tech="small-scope exhaustive enumeration of index shapes x cut keys (pairs for ranges) against an independent comparator",
    text="Every index b-tree shape of C02 x every cut key (every prefix of every entry, neighbours of the last column, below first, above last, one column longer than the records): ScanMin = suffix, ScanEq = equal run, ScanRange over every ordered pair of (thinned) cut keys = filtered slice of the same handle's full scan.",
    note="Trusted: ref.Compare (validated in C11), dbgen. Keys carry the index's own collation/DESC flags.", ref="5/C13"),
